@@ -195,3 +195,944 @@ class Env:
         if fresh:
             self.server._set_client_id(cid)
         return n
+
+
+# --------------------------------------------------------------------------
+# executing operations and judging what they emit
+# --------------------------------------------------------------------------
+
+class _Any:
+    def __repr__(self):
+        return '<any>'
+
+
+ANYV = _Any()
+
+
+class Comp:
+    """Expected completion blob holding these messages."""
+
+    def __init__(self, msgs):
+        self.msgs = msgs
+
+    def __repr__(self):
+        return 'Comp(%r)' % (self.msgs,)
+
+
+def _scalars(msg):
+    """(address, values without array markers) of a token form message."""
+    v = sc.values(msg)
+    return v[0], [x for x in v[1:] if not (isinstance(x, str) and x in '[]'
+                                           and len(x) == 1)]
+
+
+def _veq(a, e):
+    if e is ANYV:
+        return True
+    if isinstance(e, Comp):
+        if not isinstance(a, (bytes, bytearray)):
+            return False
+        try:
+            inner = sc.flatten_packet(sc.decode_packet(a))
+        except sc.OscDecodeError:
+            return False
+        return _msgs_eq([_scalars(m) for m in inner], e.msgs)
+    if isinstance(e, bool):
+        e = int(e)
+    if isinstance(e, (int, float)):
+        if isinstance(a, bool) or not isinstance(a, (int, float)):
+            return False
+        return abs(a - e) <= 1e-6 * max(1.0, abs(e))
+    return a == e
+
+
+def _msgs_eq(got, exp):
+    if len(got) != len(exp):
+        return False
+    for (ga, gv), (ea, evs) in zip(got, exp):
+        if ga != ea or len(gv) != len(evs):
+            return False
+        if not all(_veq(a, e) for a, e in zip(gv, evs)):
+            return False
+    return True
+
+
+def _show(events):
+    return [[ev['kind'], [sc.values(m) for m in ev['msgs']]]
+            for ev in events]
+
+
+class State:
+    def __init__(self):
+        self.nodes = []   # {'obj', 'cls', 'freed'}
+        self.bufs = []    # {'objs', 'nums', 'frames', 'ch', 'alloc', 'freed', 'dead'}
+        self.buses = []   # {'obj', 'rate', 'ch', 'index', 'freed'}
+
+    def live_bus(self, rate, minch=1):
+        for b in self.buses:
+            if b['rate'] == rate and not b['freed'] and b['ch'] >= minch:
+                return b
+        return None
+
+    def live_buf(self):
+        for b in self.bufs:
+            if not b['freed'] and not b['dead']:
+                return b
+        return None
+
+
+class Exec:
+    def __init__(self, env, cid):
+        self.env = env
+        self.cid = cid
+        self.server = env.server
+        self.st = State()
+        self.viol = []
+        self.dgid = self.server.default_group.node_id
+
+    # -- bookkeeping -----------------------------------------------------------
+    def v(self, clause, site, text, observed=None, key=None):
+        self.viol.append({'clause': clause, 'site': site, 'text': text,
+                          'observed': observed,
+                          'key': key or 'C17.%s:%s' % (clause, site)})
+
+    def allowed_nodes(self):
+        ids = {0, self.dgid}
+        for g in getattr(self.server, '_default_groups', []):
+            ids.add(g.node_id)
+        ids.update(n['obj'].node_id for n in self.st.nodes)
+        return ids
+
+    def allowed_bufs(self):
+        return {n for b in self.st.bufs for n in b['nums']}
+
+    def allowed_bus(self, rate):
+        s = set()
+        for b in self.st.buses:
+            if b['rate'] == rate:
+                s.update(range(b['index'], b['index'] + b['ch']))
+        return s
+
+    def ctl_scalars(self, x):
+        env = self.env
+        out = []
+
+        def rec(v):
+            if isinstance(v, (list, tuple)):
+                for e in v:
+                    rec(e)
+            elif isinstance(v, dict):
+                for k, val in v.items():
+                    rec(k)
+                    rec(val)
+            elif isinstance(v, env.bus.Bus):
+                out.append(v.index)
+            elif isinstance(v, env.buffer.Buffer):
+                out.append(v.bufnum)
+            elif isinstance(v, env.node.Node):
+                out.append(v.node_id)
+            elif isinstance(v, bool):
+                out.append(int(v))
+            else:
+                out.append(v)
+        rec(x if x is not None else [])
+        return out
+
+    def build_args(self, variant):
+        """Control argument lists. Returns (True, value) or (False, None) when
+        the variant needs an object the state does not have."""
+        st = self.st
+        cb = st.live_bus('control')
+        ab = st.live_bus('audio')
+        bf = st.live_buf()
+        cbo = cb['obj'] if cb else None
+        abo = ab['obj'] if ab else None
+        bfo = bf['objs'][0] if bf else None
+        table = {
+            'none': lambda: None,
+            'empty': lambda: [],
+            'pair': lambda: ['freq', 440],
+            'pairs': lambda: ['freq', 440.5, 'amp', 0.1],
+            'index': lambda: [0, 1.5, 2, 3],
+            'list': lambda: ['freq', [440, 660.5]],
+            'nested': lambda: ['freq', [1, [2, 3.5]], 'amp', 0.25],
+            'tuple': lambda: ('freq', 440, 'amp', (0.5, 0.25)),
+            'dict': lambda: {'freq': 440, 'amp': 0.5},
+            'dictpos': lambda: [{'amp': 0.5}],
+            'bus': lambda: cbo and ['out', cbo],
+            'buslist': lambda: cbo and ['outs', [cbo, cbo]],
+            'mapstr': lambda: cbo and ['freq', cbo.as_map()],
+            'abusmap': lambda: abo and ['in', abo.as_map()],
+            'buf': lambda: bfo and ['bufnum', bfo, 'rate', 1.0],
+            'dictobj': lambda: (cbo and bfo) and {'out': cbo, 'bufnum': bfo},
+        }
+        val = table[variant]()
+        if val is None and variant != 'none':
+            return False, None
+        return True, val
+
+    def resolve_target(self, tgt):
+        kind = tgt[0]
+        if kind == 'srv':
+            return True, self.server, self.dgid
+        if kind == 'none':
+            return True, None, self.dgid
+        i = tgt[1]
+        if kind == 'int':
+            if i < 0:
+                return True, self.dgid, self.dgid
+            if i >= len(self.st.nodes):
+                return False, None, None
+            nid = self.st.nodes[i]['obj'].node_id
+            return True, nid, nid
+        if i >= len(self.st.nodes):
+            return False, None, None
+        o = self.st.nodes[i]['obj']
+        return True, o, o.node_id
+
+    # -- running one operation -------------------------------------------------
+    def do(self, op):
+        """Returns {'events', 'exc', 'viol', 'skipped'}."""
+        env = self.env
+        self.viol = []
+        plan = getattr(self, 'op_' + op['k'])(op)
+        if plan is None:
+            return {'events': [], 'exc': None, 'viol': [], 'skipped': True}
+        site, call, post = plan
+        mark = len(env.events)
+        exc = result = None
+        try:
+            result = call()
+        except _Boom:
+            raise
+        except Exception as e:
+            exc = e
+        events = env.events[mark:]
+        post(result, exc, events)
+        flagged = bool(self.viol)
+        nodes = bufs = None
+        for ev in events:
+            if ev['bad']:
+                self.v('conform', site, ev['bad'], _show([ev]))
+            for m in ev['msgs']:
+                probs = sc.conforms(m)
+                if probs:
+                    self.v('conform', site, '%s emitted %r: %s'
+                           % (site, sc.values(m), probs[0]), sc.values(m))
+                    continue
+                if flagged:
+                    continue
+                if nodes is None:
+                    nodes, bufs = self.allowed_nodes(), self.allowed_bufs()
+                    cbus = self.allowed_bus('control')
+                    abus = self.allowed_bus('audio')
+                for d in sc.ids(m):
+                    ok = True
+                    if d['kind'] == 'node':
+                        ok = d['id'] in nodes or (
+                            d['role'] == 'newnode' and d['id'] == -1)
+                    elif d['kind'] == 'buf':
+                        ok = d['id'] in bufs
+                    else:
+                        pool = cbus if d['kind'] == 'cbus' else abus
+                        if 'map' in d['role'] and d['id'] == -1:
+                            ok = True
+                        else:
+                            ok = all(i in pool for i in range(
+                                d['id'], d['id'] + max(d['count'], 1)))
+                    if not ok:
+                        self.v('ids', site,
+                               '%s emitted %r: %s id %d (count %d, argument '
+                               '%d) was never obtained by this client'
+                               % (site, sc.values(m), d['kind'], d['id'],
+                                  d['count'], d['pos']), sc.values(m))
+        return {'events': events, 'exc': exc, 'viol': self.viol,
+                'skipped': False}
+
+    def expect(self, site, clause, events, exp, exc=None, what=None):
+        """exp: list of (kind, [(addr, [values])]) -- one entry per event."""
+        if exc is not None:
+            self.v(clause, site, '%s raised %s: %s'
+                   % (what or site, type(exc).__name__, exc), repr(exc))
+            return False
+        ok = len(events) == len(exp)
+        if ok:
+            for ev, (kind, msgs) in zip(events, exp):
+                if ev['bad'] or ev['kind'] != kind or not _msgs_eq(
+                        [_scalars(m) for m in ev['msgs']], msgs):
+                    ok = False
+        if not ok:
+            self.v(clause, site, '%s emitted %r, expected %r'
+                   % (what or site, _show(events), exp), _show(events))
+        return ok
+
+    # -- nodes -----------------------------------------------------------------
+    def op_new(self, op):
+        env, st = self.env, self.st
+        cname, ctor, act = op['cls'], op['ctor'], op['act']
+        cls = getattr(env.node, cname)
+        synth = cname == 'Synth'
+        ok, target, tid = self.resolve_target(op['tgt'])
+        if not ok:
+            return None
+        ok, args = self.build_args(op.get('args', 'none') if synth
+                                   else 'none')
+        if not ok:
+            return None
+        site = cname
+        same = False
+        if ctor == 'init':
+            if synth:
+                call = lambda: cls(DEFNAME, args, target, act)
+            else:
+                call = lambda: cls(target, act)
+        elif ctor == 'conv':
+            name = CONV[act]
+            site = '%s.%s' % (cname, name)
+            if synth:
+                if name == 'replace' and op['tgt'][0] != 'node':
+                    return None
+                call = lambda: getattr(cls, name)(target, DEFNAME, args)
+            else:
+                call = lambda: getattr(cls, name)(target)
+        elif ctor == 'replace_same':
+            if not synth or op['tgt'][0] != 'node':
+                return None
+            site, act, same = 'Synth.replace', 'addReplace', True
+            call = lambda: cls.replace(target, DEFNAME, args, True)
+        elif ctor == 'paused':
+            site = 'Synth.new_paused'
+            call = lambda: cls.new_paused(DEFNAME, args, target, act)
+        elif ctor == 'grain':
+            site = 'Synth.grain'
+            call = lambda: cls.grain(DEFNAME, args, target, act)
+        else:
+            raise ValueError(ctor)
+        ctl = self.ctl_scalars(args) if synth else []
+
+        def post(obj, exc, events):
+            if exc is not None:
+                self.v('create', site, '%s(target=%r, %r, args=%r) raised '
+                       '%s: %s' % (site, op['tgt'], act, args,
+                                   type(exc).__name__, exc), repr(exc))
+                return
+            if ctor == 'grain':
+                nid = -1
+            else:
+                nid = getattr(obj, 'node_id', None)
+                if isinstance(nid, bool) or not isinstance(nid, int):
+                    self.v('create', site, '%s returned an object with '
+                           'node_id %r' % (site, nid), nid)
+                    return
+                if not same and nid in self.allowed_nodes():
+                    self.v('create', site, '%s got node id %d which is '
+                           'already in use' % (site, nid), nid)
+                st.nodes.append({'obj': obj, 'cls': cname, 'freed': False})
+            if synth:
+                m = ('/s_new', [DEFNAME, nid, ACTNUM[act], tid] + ctl)
+            else:
+                m = (CREATE_CMD[cname], [nid, ACTNUM[act], tid])
+            if ctor == 'paused':
+                exp = [('bundle', [m, ('/n_run', [nid, 0])])]
+            else:
+                exp = [('msg', [m])]
+            self.expect(site, 'create', events, exp)
+        return site, call, post
+
+    def op_nm(self, op):
+        env, st = self.env, self.st
+        if op['n'] >= len(st.nodes):
+            return None
+        rec = st.nodes[op['n']]
+        o = rec['obj']
+        nid = o.node_id
+        m, var = op['m'], op.get('v')
+        site = 'Node.%s' % m
+        cb = st.live_bus('control')
+        cb2 = st.live_bus('control', 2)
+        ab = st.live_bus('audio')
+        bf = st.live_buf()
+        kind = 'msg'
+        clause = 'cmd'
+        exp = None
+
+        def other(j):
+            return st.nodes[j]['obj'] if j is not None and j < len(
+                st.nodes) else None
+
+        if m == 'set':
+            ok, args = self.build_args(var)
+            if not ok:
+                return None
+            if var == 'dictpos':
+                site = 'Node.set-dict'
+            call = lambda: o.set(*args)
+            exp = ('/n_set', [nid] + self.ctl_scalars(args))
+        elif m == 'setn':
+            if var == 'one':
+                args, e = ('freq', 1.5), ['freq', 1, 1.5]
+            elif var == 'list':
+                args, e = ('freq', [1, 2.5, 3]), ['freq', 3, 1, 2.5, 3]
+            elif var == 'multi':
+                args = (0, [1.0, 2.0], 'amp', 0.5)
+                e = [0, 2, 1.0, 2.0, 'amp', 1, 0.5]
+            elif var == 'bus':
+                if not cb:
+                    return None
+                args, e = ('out', cb['obj']), ['out', 1, cb['index']]
+            elif var == 'objlist':
+                if not (cb and bf):
+                    return None
+                args = ('x', [cb['obj'], bf['objs'][0]])
+                e = ['x', 2, cb['index'], bf['nums'][0]]
+            call = lambda: o.setn(*args)
+            exp = ('/n_setn', [nid] + e)
+        elif m in ('map', 'mapa'):
+            b = cb if m == 'map' else ab
+            if var == 'unmap':
+                args, e = ('freq', -1), ['freq', -1]
+            elif not b:
+                return None
+            elif var == 'bus':
+                args, e = ('freq', b['obj']), ['freq', b['index']]
+            elif var == 'int':
+                i = b['index'] + b['ch'] - 1
+                args, e = (1, i), [1, i]
+            elif var == 'multi':
+                args = ('freq', b['obj'], 2, -1)
+                e = ['freq', b['index'], 2, -1]
+            call = lambda: getattr(o, m)(*args)
+            exp = ('/n_' + m, [nid] + e)
+        elif m in ('mapn', 'mapan'):
+            b = cb if m == 'mapn' else ab
+            if not b:
+                return None
+            if var == 'bus':
+                args, e = ('freq', b['obj']), ['freq', b['index'], b['ch']]
+            elif var == 'int':
+                args, e = (0, b['index']), [0, b['index'], 1]
+            elif var == 'multi':
+                args = ('freq', b['obj'], 3, b['index'])
+                e = ['freq', b['index'], b['ch'], 3, b['index'], 1]
+            call = lambda: getattr(o, m)(*args)
+            exp = ('/n_' + m, [nid] + e)
+        elif m == 'fill':
+            args = {'one': ('freq', 2, 0.5),
+                    'multi': ('freq', 2, 0.5, 'amp', 1, 3),
+                    'index': (0, 3, 1)}[var]
+            call = lambda: o.fill(*args)
+            exp = ('/n_fill', [nid] + list(args))
+        elif m == 'release':
+            call = lambda: o.release(var)
+            gate = 0 if var is None else (-1 if var <= 0 else -(var + 1))
+            exp = ('/n_set', [nid, 'gate', gate])
+            kind = 'bundle'
+        elif m == 'run':
+            call = lambda: o.run(var)
+            exp = ('/n_run', [nid, int(var)])
+        elif m == 'trace':
+            call = o.trace
+            exp = ('/n_trace', [nid])
+        elif m == 'query':
+            call = lambda: o.query(lambda *a: None)
+            exp = ('/n_query', [nid])
+        elif m == 'get':
+            if rec['cls'] != 'Synth':
+                return None
+            site = 'Synth.get'
+            call = lambda: o.get(var, lambda *a: None)
+            exp = ('/s_get', [nid, var])
+        elif m == 'getn':
+            if rec['cls'] != 'Synth':
+                return None
+            site = 'Synth.getn'
+            call = lambda: o.getn(var, 2, lambda *a: None)
+            exp = ('/s_getn', [nid, var, 2])
+        elif m in ('move_before', 'move_after'):
+            t = other(var)
+            if t is None:
+                return None
+            call = lambda: getattr(o, m)(t)
+            exp = ('/n_before' if m == 'move_before' else '/n_after',
+                   [nid, t.node_id])
+        elif m in ('move_to_head', 'move_to_tail'):
+            if var is None:
+                t, gid = None, self.dgid
+            else:
+                t = other(var)
+                if t is None or st.nodes[var]['cls'] == 'Synth':
+                    return None
+                gid = t.node_id
+            call = lambda: getattr(o, m)(t)
+            exp = ('/g_head' if m == 'move_to_head' else '/g_tail',
+                   [gid, nid])
+        elif m == 'free':
+            clause = 'free'
+            call = o.free
+            exp = ('/n_free', [nid])
+        elif m == 'free_noflag':
+            site, clause = 'Node.free', 'free'
+            call = lambda: o.free(False)
+            exp = None
+        elif m in ('free_all', 'deep_free'):
+            if rec['cls'] == 'Synth':
+                return None
+            site = 'Group.%s' % m
+            call = getattr(o, m)
+            exp = ('/g_freeAll' if m == 'free_all' else '/g_deepFree', [nid])
+        else:
+            raise ValueError(m)
+
+        def post(res, exc, events):
+            if m in ('free', 'free_noflag'):
+                rec['freed'] = True
+            self.expect(site, clause, events,
+                        [(kind, [exp])] if exp else [], exc,
+                        '%s(%r) on node %d' % (site, var, nid))
+        return site, call, post
+
+    def op_srv(self, op):
+        env, st, s = self.env, self.st, self.server
+        m = op['m']
+        site = 'Server.%s' % m
+        if m == 'reorder':
+            ids = [j for j in op['nodes'] if j < len(st.nodes)]
+            ok, target, tid = self.resolve_target(op['tgt'])
+            if not ids or not ok:
+                return None
+            objs = [st.nodes[j]['obj'] for j in ids]
+            act = op['act']
+            call = lambda: s.reorder(objs, target, act)
+            exp = [('msg', [('/n_order', [ACTNUM[act], tid] +
+                                    [x.node_id for x in objs])])]
+        elif m == 'free_default_group':
+            call = s.free_default_group
+            exp = [('msg', [('/g_freeAll', [self.dgid])])]
+        elif m == 'free_default_groups':
+            site = 'Server.free_default_group'
+            call = lambda: s.free_default_group(True)
+            exp = None   # one /g_freeAll per default group: judged generically
+        elif m == 'free_nodes':
+            call = s.free_nodes
+            exp = [('msg', [('/g_freeAll', [0])]), ('msg', [('/clearSched',
+                                                             [])])]
+        elif m == 'dump_osc':
+            call = lambda: s.dump_osc(op['code'])
+            exp = [('msg', [('/dumpOSC', [op['code']])])]
+        elif m == 'status':
+            site = 'NetAddr.send_status_msg'
+            call = s.addr.send_status_msg
+            exp = [('msg', [('/status', [])])]
+        else:
+            raise ValueError(m)
+
+        def post(res, exc, events):
+            if exp is None:
+                if exc is not None:
+                    self.v('cmd', site, '%s raised %r' % (site, exc))
+                elif not events or any(
+                        _scalars(x)[0] != '/g_freeAll'
+                        for ev in events for x in ev['msgs']):
+                    self.v('cmd', site, '%s emitted %r' % (site,
+                                                           _show(events)))
+                return
+            self.expect(site, 'cmd', events, exp, exc)
+        return site, call, post
+
+    def op_sdef(self, op):
+        sd = self.env.synthdef()
+        site = 'SynthDef.send'
+
+        def post(res, exc, events):
+            if self.expect(site, 'cmd', events,
+                           [('msg', [('/d_recv', [ANYV, 0])])], exc):
+                blob = _scalars(events[0]['msgs'][0])[1][0]
+                if not (isinstance(blob, bytes) and blob[:4] == b'SCgf'):
+                    self.v('cmd', site, '/d_recv does not carry a synth '
+                           'definition file (SCgf...)', repr(blob[:8]))
+        return site, lambda: sd.send(self.server), post
+
+    # -- buffers -----------------------------------------------------------------
+    def _reg_bufs(self, objs, frames, ch, alloc):
+        nums = [b.bufnum for b in objs]
+        rec = {'objs': objs, 'nums': nums, 'frames': frames, 'ch': ch,
+               'alloc': alloc, 'freed': 0, 'dead': False}
+        self.st.bufs.append(rec)
+        return rec
+
+    def _check_bufnums(self, site, nums):
+        bad = [n for n in nums if isinstance(n, bool) or not isinstance(
+            n, int)]
+        if bad or nums != list(range(nums[0], nums[0] + len(nums))):
+            self.v('create', site, '%s produced buffer numbers %r'
+                   % (site, nums), nums)
+            return False
+        live = {n for b in self.st.bufs if not b['freed'] and not b['dead']
+                for n in b['nums']}
+        if live & set(nums):
+            self.v('create', site, '%s produced buffer numbers %r of which '
+                   '%r are still in use' % (site, nums, sorted(
+                       live & set(nums))), nums)
+            return False
+        return True
+
+    def op_buf(self, op):
+        env, s = self.env, self.server
+        Buffer = env.buffer.Buffer
+        var = op['v']
+        frames, ch = op.get('frames', 8), op.get('ch', 1)
+        site = 'Buffer'
+        if var == 'plain':
+            call = lambda: Buffer(frames, ch, s)
+        elif var == 'compfn':
+            call = lambda: Buffer(frames, ch, s, completion_msg=lambda b: [
+                '/b_query', b.bufnum])
+        elif var == 'complist':
+            call = lambda: Buffer(frames, ch, s,
+                                  completion_msg=['/sync', 7])
+        elif var == 'noalloc':
+            call = lambda: Buffer(frames, ch, s, alloc=False)
+        elif var == 'cue':
+            site = 'Buffer.new_cue'
+            call = lambda: Buffer.new_cue(PATH, 3, frames, ch, s)
+        elif var == 'read':
+            site = 'Buffer.new_read'
+            call = lambda: Buffer.new_read(PATH, 0, -1, s)
+        else:
+            raise ValueError(var)
+
+        def post(b, exc, events):
+            if exc is not None:
+                self.v('create', site, '%s raised %s: %s'
+                       % (site, type(exc).__name__, exc), repr(exc))
+                return
+            if not self._check_bufnums(site, [b.bufnum]):
+                return
+            n = b.bufnum
+            self._reg_bufs([b], frames, ch, var != 'noalloc')
+            if var == 'plain':
+                exp = [('msg', [('/b_alloc', [n, frames, ch, 0])])]
+            elif var == 'compfn':
+                exp = [('msg', [('/b_alloc', [n, frames, ch, Comp(
+                    [('/b_query', [n])])])])]
+            elif var == 'complist':
+                exp = [('msg', [('/b_alloc', [n, frames, ch, Comp(
+                    [('/sync', [7])])])])]
+            elif var == 'noalloc':
+                exp = []
+            elif var == 'cue':
+                exp = [('msg', [('/b_alloc', [n, frames, ch, Comp(
+                    [('/b_read', [n, PATH, 3, frames, 0, 1, 0])])])])]
+            else:
+                exp = [('msg', [('/b_allocRead', [n, PATH, 0, -1, Comp(
+                    [('/b_query', [n])])])])]
+            self.expect(site, 'create', events, exp)
+        return site, call, post
+
+    def op_bufc(self, op):
+        env, s = self.env, self.server
+        Buffer = env.buffer.Buffer
+        n, comp = op['n'], op.get('comp', False)
+        frames, ch = 4, 2
+        site = 'Buffer.new_consecutive'
+        fn = (lambda b, i: ['/b_zero', b.bufnum]) if comp else None
+        call = lambda: Buffer.new_consecutive(n, frames, ch, s,
+                                              completion_msg=fn)
+
+        def post(bs, exc, events):
+            if exc is not None:
+                self.v('create', site, '%s(%d) raised %s: %s'
+                       % (site, n, type(exc).__name__, exc), repr(exc))
+                return
+            nums = [b.bufnum for b in bs]
+            if len(nums) != n or not self._check_bufnums(site, nums):
+                self.v('create', site, '%s(%d) returned buffers %r'
+                       % (site, n, nums), nums)
+                return
+            self._reg_bufs(list(bs), frames, ch, True)
+            exp = [('msg', [('/b_alloc', [
+                k, frames, ch, Comp([('/b_zero', [k])]) if comp else 0])])
+                for k in nums]
+            self.expect(site, 'create', events, exp)
+        return site, call, post
+
+    def op_bm(self, op):
+        st = self.st
+        if op['b'] >= len(st.bufs):
+            return None
+        rec = st.bufs[op['b']]
+        if rec['dead']:
+            return None
+        j = op.get('j', 0) % len(rec['objs'])
+        b = rec['objs'][j]
+        n = rec['nums'][j]
+        m, var = op['m'], op.get('v')
+        site = 'Buffer.%s' % m
+        freed = rec['freed'] > 0
+        guarded = m in ('zero', 'set', 'setn', 'fill', 'get', 'getn', 'query',
+                        'sine1', 'sine2', 'sine3', 'cheby', 'normalize',
+                        'gen', 'copy_data', 'write', 'close')
+        if freed and not guarded:
+            return None   # use after free of an unguarded method: unspecified
+        clause = 'cmd'
+        nop = lambda *a: None
+        if m == 'alloc':
+            call = b.alloc
+            exp = ('/b_alloc', [n, rec['frames'], rec['ch'], 0])
+        elif m == 'zero':
+            if var == 'comp':
+                call = lambda: b.zero(lambda x: ['/b_query', x.bufnum])
+                exp = ('/b_zero', [n, Comp([('/b_query', [n])])])
+            else:
+                call = b.zero
+                exp = ('/b_zero', [n, 0])
+        elif m == 'set':
+            args = (0, 0.5) if var == 'one' else (0, 0.5, 1, 2, 3, -1.5)
+            call = lambda: b.set(*args)
+            exp = ('/b_set', [n] + list(args))
+        elif m == 'setn':
+            if var == 'one':
+                args, e = (0, [1, 2.5]), [0, 2, 1, 2.5]
+            else:
+                args, e = (0, [1.0, 2.0], 3, 4.5), [0, 2, 1.0, 2.0, 3, 1, 4.5]
+            call = lambda: b.setn(*args)
+            exp = ('/b_setn', [n] + e)
+        elif m == 'fill':
+            vals = [0.5] if var == 'one' else [0.5, 4, 2, 1]
+            call = lambda: b.fill(0, 4, vals)
+            exp = ('/b_fill', [n, 0, 4] + vals)
+        elif m == 'get':
+            call = lambda: b.get(1, nop)
+            exp = ('/b_get', [n, 1])
+        elif m == 'getn':
+            call = lambda: b.getn(1, 3, nop)
+            exp = ('/b_getn', [n, 1, 3])
+        elif m == 'query':
+            call = lambda: b.query(nop)
+            exp = ('/b_query', [n])
+        elif m == 'update_info':
+            call = lambda: b.update_info(nop)
+            exp = ('/b_query', [n])
+        elif m == 'sine1':
+            call = lambda: b.sine1([1, 0.5])
+            exp = ('/b_gen', [n, 'sine1', 7, 1, 0.5])
+        elif m == 'sine2':
+            call = lambda: b.sine2([1, 2], [1, 0.5], False, True, False)
+            exp = ('/b_gen', [n, 'sine2', 2, 1, 1, 2, 0.5])
+        elif m == 'sine3':
+            call = lambda: b.sine3([1, 2], [1, 0.5], [0, 0.25])
+            exp = ('/b_gen', [n, 'sine3', 7, 1, 1, 0, 2, 0.5, 0.25])
+        elif m == 'cheby':
+            call = lambda: b.cheby([1, 0.5])
+            exp = ('/b_gen', [n, 'cheby', 7, 1, 0.5])
+        elif m == 'normalize':
+            call = lambda: b.normalize(0.5, var == 'w')
+            exp = ('/b_gen', [n, 'wnormalize' if var == 'w' else 'normalize',
+                              0.5])
+        elif m == 'gen':
+            call = lambda: b.gen('sine1', [1, 2])
+            exp = ('/b_gen', [n, 'sine1', 7, 1, 2])
+        elif m == 'copy_data':
+            call = lambda: b.copy_data(b, 1, 0, -1)
+            exp = ('/b_gen', [n, 'copy', 1, n, 0, -1])
+        elif m == 'alloc_read':
+            call = lambda: b.alloc_read(PATH, 2, 5)
+            exp = ('/b_allocRead', [n, PATH, 2, 5, 0])
+        elif m == 'alloc_read_channel':
+            call = lambda: b.alloc_read_channel(PATH, 0, -1, [0, 1])
+            exp = ('/b_allocReadChannel', [n, PATH, 0, -1, 0, 1, 0])
+        elif m == 'read':
+            call = lambda: b.read(PATH, 1, 4, 2, True)
+            exp = ('/b_read', [n, PATH, 1, 4, 2, 1, Comp(
+                [('/b_query', [n])])])
+        elif m == 'read_channel':
+            call = lambda: b.read_channel(PATH, 1, 4, 2, False, [1])
+            exp = ('/b_readChannel', [n, PATH, 1, 4, 2, 0, 1, Comp(
+                [('/b_query', [n])])])
+        elif m == 'cue':
+            # /b_read bufnum path fileStart numFrames bufStart leaveOpen:
+            # cue = fill the whole buffer from file frame 3 and leave the
+            # file open for DiskIn (cf. Buffer.new_cue).
+            clause = 'order'
+            call = lambda: b.cue(PATH, 3)
+            exp = ('/b_read', [n, PATH, 3, rec['frames'], 0, 1, 0])
+        elif m == 'write':
+            call = lambda: b.write(PATH, 'wav', 'float', 6, 1, True)
+            exp = ('/b_write', [n, PATH, 'wav', 'float', 6, 1, 1, 0])
+        elif m == 'close':
+            call = b.close
+            exp = ('/b_close', [n, 0])
+        else:
+            raise ValueError(m)
+
+        def post(res, exc, events):
+            if freed:
+                # guarded methods refuse a freed buffer; whatever happens, no
+                # command may go out for it
+                if events:
+                    self.v('cmd', site + '-after-free', '%s on a freed '
+                           'buffer emitted %r' % (site, _show(events)),
+                           _show(events))
+                return
+            self.expect(site, clause, events, [('msg', [exp])], exc)
+        return site, call, post
+
+    def op_bfree(self, op):
+        st = self.st
+        if op['b'] >= len(st.bufs):
+            return None
+        rec = st.bufs[op['b']]
+        if rec['dead']:
+            return None
+        comp = op.get('comp', False)
+        first = rec['freed'] == 0
+        site = 'Buffer.free' if first else 'Buffer.free-twice'
+        objs, nums = rec['objs'], rec['nums']
+
+        def call():
+            for b in objs:   # a consecutive group is freed as a whole
+                if comp:
+                    b.free(lambda x: ['/sync', 9])
+                else:
+                    b.free()
+
+        def post(res, exc, events):
+            rec['freed'] += 1
+            if first:
+                cm = Comp([('/sync', [9])]) if comp else 0
+                self.expect(site, 'free', events,
+                            [('msg', [('/b_free', [k, cm])]) for k in nums],
+                            exc, 'freeing buffer(s) %r' % (nums,))
+            else:
+                frees = [sc.values(m) for ev in events for m in ev['msgs']
+                         if m[0] == '/b_free']
+                if frees:
+                    self.v('free', site, 'free() of the already freed '
+                           'buffer(s) %r emitted %r: a free command for a '
+                           'buffer this object does not own'
+                           % (nums, frees), frees)
+        return site, call, post
+
+    def op_bfreeall(self, op):
+        st, s = self.st, self.server
+        site = 'Buffer.free_all'
+        live = sorted(n for b in st.bufs if not b['freed'] and not b['dead']
+                      for n in b['nums'])
+        call = lambda: self.env.buffer.Buffer.free_all(s)
+
+        def post(res, exc, events):
+            for b in st.bufs:
+                if not b['freed']:
+                    b['dead'] = True
+            if exc is not None:
+                self.v('free', site, 'Buffer.free_all raised %r' % (exc,))
+                return
+            got = [_scalars(m) for ev in events for m in ev['msgs']]
+            frees = sorted(v[0] for a, v in got if a == '/b_free' and v)
+            other = [a for a, v in got if a != '/b_free']
+            if len(events) > 1 or other:
+                self.v('free', site, 'Buffer.free_all emitted %r'
+                       % (_show(events),), _show(events))
+            elif frees != live:
+                missing = sorted(set(live) - set(frees))
+                extra = [x for x in frees if x not in live or
+                         frees.count(x) > 1]
+                key = None
+                if missing and not extra:
+                    key = 'C17.free:free-all-buffers-range'
+                self.v('free', site, 'Buffer.free_all with buffers %r '
+                       'allocated emitted /b_free for %r (missing %r, '
+                       'unexpected %r)' % (live, frees, missing, extra),
+                       _show(events), key)
+        return site, call, post
+
+    # -- buses -------------------------------------------------------------------
+    def op_bus(self, op):
+        env, s = self.env, self.server
+        rate, ch = op['rate'], op['ch']
+        cls = env.bus.ControlBus if rate == 'control' else env.bus.AudioBus
+        site = cls.__name__
+
+        def post(b, exc, events):
+            if exc is not None:
+                self.v('create', site, '%s(%d) raised %r' % (site, ch, exc))
+                return
+            idx = b.index
+            if isinstance(idx, bool) or not isinstance(idx, int):
+                self.v('create', site, '%s(%d).index = %r' % (site, ch, idx))
+                return
+            live = {i for x in self.st.buses
+                    if x['rate'] == rate and not x['freed']
+                    for i in range(x['index'], x['index'] + x['ch'])}
+            if live & set(range(idx, idx + ch)):
+                self.v('create', site, '%s(%d) got indices [%d, %d) which '
+                       'overlap a live bus' % (site, ch, idx, idx + ch))
+            self.st.buses.append({'obj': b, 'rate': rate, 'ch': ch,
+                                  'index': idx, 'freed': False})
+            self.expect(site, 'create', events, [])
+        return site, lambda: cls(ch, s), post
+
+    def op_busm(self, op):
+        st = self.st
+        if op['b'] >= len(st.buses):
+            return None
+        rec = st.buses[op['b']]
+        if rec['rate'] != 'control':
+            return None
+        b, idx, ch = rec['obj'], rec['index'], rec['ch']
+        m = op['m']
+        site = 'ControlBus.%s' % m
+        vals = [0.5, 2, -1.25][:ch]
+        nop = lambda *a: None
+        if m == 'set':
+            call = lambda: b.set(*vals)
+            exp = ('/c_set', [x for i, v in enumerate(vals)
+                              for x in (idx + i, v)])
+        elif m == 'setn':
+            call = lambda: b.setn(vals)
+            exp = ('/c_setn', [idx, len(vals)] + vals)
+        elif m == 'fill':
+            call = lambda: b.fill(0.25, ch)
+            exp = ('/c_fill', [idx, ch, 0.25])
+        elif m == 'clear':
+            call = b.clear
+            exp = ('/c_fill', [idx, ch, 0])
+        elif m == 'set_at':
+            call = lambda: b.set_at(ch - 1, 0.75)
+            exp = ('/c_set', [idx + ch - 1, 0.75])
+        elif m == 'setn_at':
+            call = lambda: b.setn_at(ch - 1, [3])
+            exp = ('/c_setn', [idx + ch - 1, 1, 3])
+        elif m == 'set_pairs':
+            call = lambda: b.set_pairs(0, 0.125, ch - 1, 4)
+            exp = ('/c_set', [idx, 0.125, idx + ch - 1, 4])
+        elif m == 'get':
+            call = lambda: b.get(nop)
+            exp = ('/c_get', [idx]) if ch == 1 else ('/c_getn', [idx, ch])
+        elif m == 'getn':
+            call = lambda: b.getn(ch, nop)
+            exp = ('/c_getn', [idx, ch])
+        else:
+            raise ValueError(m)
+
+        def post(res, exc, events):
+            if rec['freed']:
+                if events:
+                    self.v('cmd', site + '-after-free', '%s on a freed bus '
+                           'emitted %r' % (site, _show(events)),
+                           _show(events))
+                return
+            self.expect(site, 'cmd', events, [('msg', [exp])], exc)
+        return site, call, post
+
+    def op_busfree(self, op):
+        st = self.st
+        if op['b'] >= len(st.buses):
+            return None
+        rec = st.buses[op['b']]
+        site = '%sBus.free' % rec['rate'].capitalize()
+
+        def post(res, exc, events):
+            rec['freed'] = True
+            self.expect(site, 'free', events, [], exc)
+        return site, rec['obj'].free, post
